@@ -38,7 +38,23 @@ EXTRA_TRUSTED = [
     "in C13/Model.v section Builtins, exercised by the correspondence",
     "value_serializer is modelled as returning either its argument or an opaque non-collection, "
     "non-attrs value; filters as arbitrary boolean functions of (field, value)",
+    "tie by translation: harness/translate_c13.py (Python AST of asdict/_asdict_anything/_rebuild_collection/"
+    "astuple and the next-gen wrappers -> Gallina over the operations of C13/TieBase.v, whose reading of "
+    "has/isinstance/issubclass/__class__/iteration/calls of class objects is hand-written)",
 ]
+
+
+def pre_build():
+    # Gen/C13_Funcs.v is regenerated from the current source text (a fresh checkout has none)
+    from . import translate_c13
+    translate_c13.regenerate(typecheck=False)
+
+
+def translated_tie():
+    from . import translate_c13
+    return translate_c13.regenerate(), "theories/C13/Tie.vo"
+
+
 ASSUMPTIONS = [
     "scalars used as dict keys / set members are pairwise unequal unless identical (the harness draws "
     "from such a pool); attrs classes whose instances are put into sets/keys compare and hash by value",
